@@ -46,7 +46,25 @@ func gen(t *rapid.T) Case {
 	if rapid.Bool().Draw(t, "template-locals") {
 		progen.HostileLocals(t, &mod, "matryer")
 	}
+	if rapid.IntRange(0, 3).Draw(t, "logging-shape") == 0 {
+		// Println(args ...any): the variadic parameter is the method's only parameter
+		it := &mod.Pkgs[0].Ifaces[0]
+		if it.InstOf == nil {
+			taken := false
+			for _, mt := range it.Methods {
+				taken = taken || mt.Name == "Println"
+			}
+			if !taken {
+				sg := progen.Sig{Params: []progen.Var{{Name: "args", T: progen.B("any")}}, Variadic: true}
+				if rapid.Bool().Draw(t, "logging-result") {
+					sg.Results = []progen.Var{{T: progen.B("int")}}
+				}
+				it.Methods = append(it.Methods, progen.Meth{Name: "Println", Sig: sg})
+			}
+		}
+	}
 	r.GenIfaceData(t, &mod)
+	r.GenIfaceConfigs(t, &mod)
 	return Case{Mod: mod, R: r, Seed: rapid.Uint64Range(1, 1<<62).Draw(t, "innerseed"), Checks: vh.Pick(150, 400)}
 }
 
@@ -68,6 +86,9 @@ func optsKey(r progen.Rendering) string {
 
 func run(c Case) *vh.Violation {
 	cl := []string{"opts=" + optsKey(c.R)}
+	if len(c.R.IfaceConfigs) > 0 {
+		cl = append(cl, "configs-list:several-mocks-of-one-interface-in-one-file")
+	}
 	dir, _ := progen.Materialize(&c.Mod, c.R, nil, nil)
 	defer vh.RemoveAll(dir)
 	res := vh.Mockery(dir, nil)
@@ -123,6 +144,9 @@ func run(c Case) *vh.Violation {
 			if len(c.R.IfaceData) > 0 {
 				key += "/interface-level-template-data"
 			}
+			if len(c.R.IfaceConfigs) > 0 {
+				key += "/configs-list"
+			}
 		}
 		if strings.HasPrefix(f.Kind, "reset") {
 			key += fmt.Sprintf("/with-resets=%v", c.R.Data["with-resets"] == true)
@@ -144,6 +168,16 @@ func reduce(c Case) []Case {
 		for k2, v := range c.R.Data {
 			if k2 != k {
 				d.R.Data[k2] = v
+			}
+		}
+		out = append(out, d)
+	}
+	for k := range c.R.IfaceConfigs {
+		d := c
+		d.R.IfaceConfigs = map[string][]progen.MockCfg{}
+		for k2, v := range c.R.IfaceConfigs {
+			if k2 != k {
+				d.R.IfaceConfigs[k2] = v
 			}
 		}
 		out = append(out, d)
